@@ -499,6 +499,28 @@ def _tracer_for(repo_prefix):
     return tracer
 
 
+def _diverse_models(ex, limit):
+    """Up to `limit` further models of the current path condition that push one integer input at a time
+    towards negative values / its extremes."""
+    out = []
+    ints = [(n, var) for n, (var, kind) in ex.inputs.items() if kind == 'int' and '!' not in n
+            and not n.startswith('sched')]
+    for n, var in ints[:12]:
+        for extra in ((var < 0), (var > 127), (var == 0)):
+            if len(out) >= limit:
+                return out
+            try:
+                r = ex.solver.check(extra)
+            except Exception:      # noqa: BLE001
+                continue
+            if r == z3.sat:
+                try:
+                    out.append(ex.model_dict(ex.solver.model()))
+                except EngineControl:
+                    pass
+    return out
+
+
 def _replay_in_subprocess(hdef, params, v):
     import json
     import os
@@ -659,6 +681,17 @@ def run_job(hdef, params, known=(), max_paths=2_000_000, deadline_s=3600,
                     ok = (v.label in ccx.failed) or (escaped is not None and escaped == v.label)
                     if ok:
                         v.model = alt
+                if not ok:
+                    # the witness may be unrepresentative (number<->text tokens and real arithmetic abstract the
+                    # concrete values away): try a few diverse inputs of the same path (each sign / each end of
+                    # every integer input)
+                    for alt in _diverse_models(ex, 10):
+                        ccx, escaped = run_concrete(hdef, params, alt)
+                        res.replays += 1
+                        if (v.label in ccx.failed) or (escaped is not None and escaped == v.label):
+                            ok = True
+                            v.model = alt
+                            break
                 if not ok and escaped is not None and str(escaped).startswith('engine:'):
                     # proxies of the symbolic run leaked into module-level state of the code under analysis
                     # (e.g. a shared object that a path mutated): replay in a fresh interpreter instead
